@@ -64,6 +64,12 @@ def rule_subtraction(ctx: Ctx):
     if segvar is None:
         ctx.undecided("R-C16-1", f, lp, "loop does not visit every available segment once (while len(segments) > 0: pop / for segment in segments)")
         return
+    exits = [n for b in body for n in ast.walk(b) if isinstance(n, (ast.Break, ast.Return))]
+    if exits:
+        ctx.bad("R-C16-1", f, exits[0], "early exit from the per-segment loop: the segments still in the list bypass the subtraction of the pivot zone. "
+                "The list is not kept sorted (pieces are appended in pop order), so a skipped segment may contain the pivot and stays available: "
+                "a later pivot can land closer than the minimal distance", key="loop-early-exit")
+        return
     ctx.ok("R-C16-1", f, lp, "the loop visits every available segment exactly once", key="loop")
     # output list
     rets = [n for n in walk_no_nested(f.node) if isinstance(n, ast.Return)]
